@@ -101,37 +101,52 @@ func sign(x int) int {
 	return 0
 }
 
-// the known finding F1: snapd orders a version that ends (a part) where the other continues with a run
-// of zeros as smaller, dpkg as equal ("1." vs "1.0", "1a" vs "1a0"). Pairs that dpkg calls equal and that
-// become identical once every all-zero digit run that is not followed by another digit is dropped are
-// exactly that finding.
-func dropZeroRuns(s string) string {
-	var out []byte
-	i := 0
-	for i < len(s) {
-		if isdig(s[i]) {
-			j := i
-			allZero := true
-			for j < len(s) && isdig(s[j]) {
-				if s[j] != '0' {
-					allZero = false
-				}
-				j++
-			}
-			if !allZero {
-				out = append(out, s[i:j]...)
-			}
-			i = j
-			continue
+// The known finding F1: when one side of a (sub)version is exhausted while the other continues with a
+// numeric fragment, snapd compares "" with that fragment as strings (end of string sorts first) whereas
+// Debian treats the missing number as 0 ("1." vs "1.0", "1a" vs "1a0" are equal; "1a" > "1a0~").
+// A mismatch is attributed to F1 exactly when snapd's own algorithm WITH that one repair agrees with dpkg.
+func repairedSub(va, vb string) int {
+	for {
+		a, ra, anum := nextFrag(va)
+		b, rb, bnum := nextFrag(vb)
+		va, vb = ra, rb
+		if a == "" && b == "" {
+			return 0
 		}
-		out = append(out, s[i])
-		i++
+		var res int
+		switch {
+		case anum && bnum:
+			res = cmpNumeric(a, b)
+		case a == "" && bnum:
+			res = cmpNumeric("0", b)
+		case b == "" && anum:
+			res = cmpNumeric(a, "0")
+		default:
+			res = cmpString(a, b)
+		}
+		if res != 0 {
+			return res
+		}
 	}
-	return string(out)
+}
+
+func repairedCompare(a, b string) int {
+	au, ar := splitRev(a)
+	bu, br := splitRev(b)
+	if !strings.Contains(a, "-") {
+		ar = "0"
+	}
+	if !strings.Contains(b, "-") {
+		br = "0"
+	}
+	if r := repairedSub(au, bu); r != 0 {
+		return r
+	}
+	return repairedSub(ar, br)
 }
 
 func isKnownF1(a, b string, dp int) bool {
-	return dp == 0 && dropZeroRuns(a) == dropZeroRuns(b)
+	return sign(repairedCompare(a, b)) == dp
 }
 
 func TestBoundedC33Dpkg(t *testing.T) {
